@@ -50,6 +50,12 @@ type c02Case struct {
 	// packet + header-only EOM packet; 2 data packet + two header-only
 	// packets, the second with EOM; 3 cut inside a package + header-only EOM
 	PreludeShape int `json:"earlier_response_packets,omitempty"`
+	// AckBeforeEOM (with EmptyEOM): a header-only TDS_BUF_PROTACK packet (the
+	// window acknowledgement a server may send on a channel at any time)
+	// arrives directly before the header-only packet that carries EOM. The
+	// consumer is handed a HeaderOnlyPackage for it - a package the server
+	// did send; it is taken out before the comparison (exactly one).
+	AckBeforeEOM bool `json:"header_only_protack_before_the_eom_packet,omitempty"`
 	// Consumer "until-poll": see c02_poll.go
 	Consumer string `json:"consumer,omitempty"`
 }
@@ -291,6 +297,10 @@ func c02Exec(c *Ctx, cs c02Case, ref c02Ref) {
 		}
 		pkts = append(pkts, last)
 	}
+	if cs.EmptyEOM && cs.AckBeforeEOM {
+		last := pkts[len(pkts)-1]
+		pkts = append(pkts[:len(pkts)-1:len(pkts)-1], xport.Header{Type: byte(tds.TDS_BUF_PROTACK), Length: 8}.Bytes(), last)
+	}
 	if cs.StatusExtra != 0 {
 		for i := range pkts {
 			p := append([]byte(nil), pkts[i]...)
@@ -336,8 +346,29 @@ func c02Exec(c *Ctx, cs c02Case, ref c02Ref) {
 		inside = true
 	}
 	if inside {
-		key, _ := json.Marshal([]interface{}{cs.Resp, cs.Family, cs.Cuts, cs.EmptyAt, cs.EmptyEOM, cs.Reads, cs.Prelude, cs.EmptyTail, cs.StatusExtra, cs.Consumer, cs.PreludeShape})
+		key, _ := json.Marshal([]interface{}{cs.Resp, cs.Family, cs.Cuts, cs.EmptyAt, cs.EmptyEOM, cs.Reads, cs.Prelude, cs.EmptyTail, cs.StatusExtra, cs.Consumer, cs.PreludeShape, cs.AckBeforeEOM})
 		r.Distinct(string(key))
+	}
+	if cs.AckBeforeEOM {
+		var d delivered
+		acks := 0
+		for i, t := range out.d.Types {
+			if strings.Contains(t, "HeaderOnlyPackage") {
+				acks++
+				continue
+			}
+			d.Types = append(d.Types, t)
+			if i < len(out.d.Dumps) {
+				d.Dumps = append(d.Dumps, out.d.Dumps[i])
+			}
+		}
+		d.Errs = out.d.Errs
+		if acks != 1 && len(out.d.Errs) == 0 {
+			r.Violate("header-only-protack/not-delivered-once", fmt.Sprintf("response %s with a header-only TDS_BUF_PROTACK packet before the header-only EOM packet: %d HeaderOnlyPackage(s) delivered, packages %v", cs.Resp, acks, out.d.Types), cs)
+			return
+		}
+		out.d = d
+		r.Count("deliveries_with_a_protack_before_the_eom_packet", 1)
 	}
 	fam := cs.Family
 	if cs.Prelude {
@@ -543,6 +574,10 @@ func runC02(c *Ctx) {
 			cu := randomCuts(rnd, n, rnd.Range(0, 3))
 			tail := i % 3 // 0, 1 or 2 further header-only packets before the one carrying EOM
 			add("header-only-eom-packet", func(cs *c02Case) { cs.Cuts = cu; cs.EmptyEOM = true; cs.EmptyTail = tail })
+		}
+		for i := 0; i < 3; i++ {
+			cu := randomCuts(rnd, n, i)
+			add("header-only-protack-before-eom-packet", func(cs *c02Case) { cs.Cuts = cu; cs.EmptyEOM = true; cs.AckBeforeEOM = true; cs.Via = "reader" })
 		}
 		// (f3) other header status bits next to (and instead of) end-of-message
 		for i, extra := range []int{0x02, 0x08, 0x0a, 0x04, 0x30} {
